@@ -14,7 +14,10 @@ RULE = (
     "token string up to the bound over C01's alphabet plus '[' and ']', and operand-validation corners generated "
     "from a small grammar (every operator x every operand kind incl. empty sets, every literal kind, strings, '.', "
     "in five surrounding shapes); x intercept mode x feature-flag subsets (all 8 where '~', '|' or '[' occur) x "
-    "available-variable context where '.' occurs.  Every parse runs the real DefaultFormulaParser.get_terms under a "
+    "available-variable context where '.' occurs; and histories on ONE parser object: constructed with a flag subset, "
+    "optionally used, then re-configured by every sequence of up to 2 (thorough 3) set_feature_flags calls (on the parser "
+    "or its operator resolver, subset as FeatureFlags value or set of strings, all 8 subsets), with or without parses in "
+    "between, probing four formulas after the changes against a fresh parser with the flags in force.  Every parse runs the real DefaultFormulaParser.get_terms under a "
     "5 s watchdog.  Non-trivial = a distinct (string, configuration) that reaches the parser with at least two "
     "reference-lexer tokens or a quote/bracket context."
 )
@@ -410,12 +413,12 @@ def subchecks(tier, seed):
     ]
     subs.append(Sub("flag-histories", drv_flag_histories,
                     {"init_flags": [ALL_FLAGS, (), FLAG_SETS[0]] if quick else FLAG_SETS, "init_forms": ["enum"] if quick else SPEC_FORMS,
-                     "depth": 2 if quick else 3, "subsets": FLAG_SETS, "subsets_deep": [ALL_FLAGS, (), ("TWOSIDED",), ("MULTISTAGE",)]},
+                     "depth": 2 if quick else 3, "subsets": FLAG_SETS, "subsets_deep": [ALL_FLAGS, ()]},
                     shard_depth=4,
                     bounds={"constructed_with": "ALL, NONE, DEFAULT" if quick else "all 8 subsets, as FeatureFlags value and as set of strings",
                             "parse_before_first_change": [False, True], "changes": "1..2" if quick else "1..3",
                             "each_change": "set_feature_flags on {parser, parser.operator_resolver} x {FeatureFlags value, set of str} x "
-                                           "all 8 subsets (histories of 3 changes: 4 subsets)",
+                                           "all 8 subsets (histories of 3 changes: the subsets ALL and NONE)",
                             "parse_between_changes": [False, True], "probe_formulas": PROBES}))
     if quick:
         subs.append(Sub("chars14", drv_chars, {"alphabet": CHARS14, "L": 5, "all_flags_upto": 0, "both_icpt_upto": 4,
